@@ -400,6 +400,7 @@ func (x *Ctx) FinalWrite(bound time.Duration) bool {
 		op := x.C.Submit(99, fmt.Sprintf("wfinal.%d", i), "W", l, 2*time.Second, 0)
 		if op != nil && op.Outcome == "ok" {
 			x.count("c15.final_write_ok", 1)
+			x.M.Emit(mon.Event{Kind: mon.KPhase, Str: "final-ok"})
 			return true
 		}
 		_, _, exch := x.M.Steps()
